@@ -960,7 +960,9 @@ func (fr *FnRun) runBlock(st *State, b *ssa.BasicBlock, prev *ssa.BasicBlock, de
 				fr.loopBack(st, li, b, prev)
 				return
 			}
-			fr.loopEnter(st, li, b, prev)
+			if !fr.loopEnter(st, li, b, prev) {
+				return // an invariant could not even be evaluated at the entry: reported, path ends
+			}
 		}
 		// phis
 		var phiVals []Val
